@@ -30,12 +30,12 @@ STR_PROPS = {
 
 DET_PROPS = {"C06": ("exploration", "Output bytes identical across schedules/knobs/history")}
 
-BUDGETS_ERR = {"quick": (32, 10), "thorough": (480, 40)}
+BUDGETS_ERR = {"quick": (48, 10), "thorough": (480, 40)}
 
 BUDGETS = {
-    "det": {"quick": (36, 8), "thorough": (540, 30)},
-    "graph": {"quick": (32, 10), "thorough": (640, 40)},
-    "str": {"quick": (32, 8), "thorough": (480, 30)},
+    "det": {"quick": (72, 8), "thorough": (540, 30)},
+    "graph": {"quick": (64, 12), "thorough": (640, 40)},
+    "str": {"quick": (48, 10), "thorough": (480, 30)},
 }
 
 
@@ -127,7 +127,7 @@ def run_det_family(prop, tier, seed):
 
 def run_arch_family(prop, tier, seed):
     from . import family_arch
-    nwl, nsched = {"quick": (16, 6), "thorough": (480, 30)}[tier]
+    nwl, nsched = {"quick": (32, 8), "thorough": (480, 30)}[tier]
     ev = Evidence(prop, tier, seed, "exploration")
     ev.rule = ("archgen link line (plain objects, archives, thin archives, whole-archive regions, strong "
                "and weak cross references, a symbol defined by two members, every fourth workload with "
@@ -146,9 +146,9 @@ def run_arch_family(prop, tier, seed):
 
 
 FS_BUDGET = {
-    "C17": {"quick": (6, 6), "thorough": (96, 60)},
-    "C18": {"quick": (24, 10), "thorough": (240, 40)},
-    "C19": {"quick": (24, 10), "thorough": (240, 40)},
+    "C17": {"quick": (12, 8), "thorough": (96, 60)},
+    "C18": {"quick": (48, 10), "thorough": (240, 40)},
+    "C19": {"quick": (48, 10), "thorough": (240, 40)},
 }
 FS_LEVEL = {"C17": "fault_enumeration", "C18": "fault_enumeration", "C19": "exploration"}
 FS_RULE = {
@@ -233,7 +233,7 @@ def run_js_family(prop, tier, seed):
 def run_relink_family(prop, tier, seed):
     from . import family_relink
     family_relink.host_binary()
-    nwl, nsched = {"quick": (16, 3), "thorough": (160, 12)}[tier]
+    nwl, nsched = {"quick": (32, 4), "thorough": (160, 12)}[tier]
     ev = Evidence(prop, tier, seed, "exploration")
     ev.rule = ("history: link v1 -> start a process that execve's it (static exe) or dlopen's it (shared "
                "object, gcc-built host) and blocks after touching its first page -> relink v2 (same or "
